@@ -197,49 +197,88 @@ Proof.
       destruct (IH u' Fu Fu' H) as [-> P]. split; [reflexivity|exact P].
 Qed.
 
-Lemma tail_prefix y : forall x, forallb ok_key y = true -> forallb ok_key x = true ->
-  (forallb str_key y = true \/ forallb str_key x = true) ->
-  is_prefix (tail y) (tail x) = true -> path_prefix y x = true.
+(* Claim B: a string prefix of tails splits the longer key sequence: its first part has the same
+   bracket contents, element by element *)
+Lemma tail_prefix_gen y : forall x, forallb ok_key y = true -> forallb ok_key x = true ->
+  is_prefix (tail y) (tail x) = true -> exists x1 x2, x = x1 ++ x2 /\ map body x1 = map body y.
 Proof.
-  induction y as [|k y IH]; intros x Oy Ox S H; [reflexivity|].
+  induction y as [|k y IH]; intros x Oy Ox H; [exists [], x; split; reflexivity|].
   destruct x as [|k' x]; [rewrite tail_cons in H; discriminate H|].
   rewrite !tail_cons in H. cbn [is_prefix] in H. apply andb_true_iff in H as [_ H].
   cbn [forallb] in Oy, Ox. apply andb_true_iff in Oy as [Ok Oy]. apply andb_true_iff in Ox as [Ok' Ox].
   destruct (prefix_inj_step _ _ _ _ (body_brfree k Ok) (body_brfree k' Ok') H) as [E P].
-  assert (K : k = k').
-  { destruct S as [S|S]; cbn [forallb] in S; apply andb_true_iff in S as [S _].
-    - symmetry. apply body_inj; [exact Ok'|exact S|symmetry; exact E].
-    - apply body_inj; assumption. }
-  subst k'. cbn [path_prefix]. rewrite (proj2 (pkey_eqb_eq k k) eq_refl). cbn [andb].
-  apply IH; try assumption.
-  destruct S as [S|S]; cbn [forallb] in S; apply andb_true_iff in S as [_ S]; [left|right]; exact S.
-Qed.
-
-Lemma forallb_str_ok q : forallb str_key q = true -> forallb ok_key q = true.
-Proof. intros H. eapply forallb_impl; [|exact H]. apply str_key_ok. Qed.
-
-(* substring matching on rendered paths = prefix order on key sequences *)
-Lemma sub_prefix_q q x : forallb str_key q = true -> forallb ok_key x = true ->
-  contains_sub (render q) (render x) = true -> path_prefix q x = true.
-Proof.
-  intros S O H. destruct q as [|k q]; [reflexivity|].
-  apply sub_is_prefix in H; [|discriminate|exact O].
-  rewrite !render_tail, is_prefix_app_same in H.
-  apply tail_prefix; [apply forallb_str_ok; exact S|exact O|left; exact S|exact H].
-Qed.
-
-Lemma sub_prefix_x q x : forallb str_key q = true -> forallb ok_key x = true ->
-  contains_sub (render x) (render q) = true -> path_prefix x q = true.
-Proof.
-  intros S O H. destruct x as [|k x]; [reflexivity|].
-  apply sub_is_prefix in H; [|discriminate|apply forallb_str_ok; exact S].
-  rewrite !render_tail, is_prefix_app_same in H.
-  apply tail_prefix; [exact O|apply forallb_str_ok; exact S|right; exact S|exact H].
+  destruct (IH x Oy Ox P) as (x1 & x2 & -> & M). exists (k' :: x1), x2. split; [reflexivity|].
+  cbn [map]. rewrite M, E. reflexivity.
 Qed.
 
 (* ------------------------------------------------------------------ *)
-(* the prefix order on key sequences                                   *)
+(* the elements of an include path: list indexes and plain string keys *)
 (* ------------------------------------------------------------------ *)
+Definition qkey (k : pkey) : bool :=
+  match k with PIdx _ => true | PKey (AStr s) => plain_str s | PKey _ => false end.
+Definition nodigit_key (k : pkey) : bool :=
+  match k with PKey (AStr s) => negb (all_digits s) | _ => true end.
+
+Lemma qkey_ok k : qkey k = true -> ok_key k = true.
+Proof. destruct k as [[]|]; cbn; congruence. Qed.
+Lemma forallb_qkey_ok q : forallb qkey q = true -> forallb ok_key q = true.
+Proof. intros H. eapply forallb_impl; [|exact H]. apply qkey_ok. Qed.
+Lemma str_key_qkey k : str_key k = true -> qkey k = true.
+Proof. destruct k as [[]|]; cbn; congruence. Qed.
+
+Lemma p_of_Z_inj z z' : p_of_Z z = p_of_Z z' -> z = z'.
+Proof.
+  intros E. pose proof (literal_eval_int z) as A. rewrite E, literal_eval_int in A. congruence.
+Qed.
+
+Lemma body_idx i : body (PIdx i) = p_of_Z (Z.of_nat i).
+Proof. reflexivity. Qed.
+
+Lemma p_of_nat_digits i : forallb is_digit (p_of_Z (Z.of_nat i)) = true /\ p_of_Z (Z.of_nat i) <> [].
+Proof.
+  rewrite <- (nat_N_Z i), p_of_Z_of_N.
+  split; [apply p_of_N_digits|apply p_of_N_nonempty].
+Qed.
+
+(* a key that renders like the index i is the index i or the int key i *)
+Lemma body_idx_inj k i : ok_key k = true -> body k = body (PIdx i) ->
+  k = PIdx i \/ k = PKey (AInt (Z.of_nat i)).
+Proof.
+  intros O E. rewrite body_idx in E. destruct (p_of_nat_digits i) as [D NE].
+  destruct k as [a|j].
+  - destruct a as [|b|z|t|s|s]; cbn [ok_key ok_atom] in O; try discriminate.
+    + unfold body in E. cbn in E. rewrite <- E in D. vm_compute in D. discriminate D.
+    + unfold body in E. destruct b; cbn in E; rewrite <- E in D; vm_compute in D; discriminate D.
+    + unfold body in E. cbn [key_atom stringify_param repr_atom] in E. apply p_of_Z_inj in E. subst z. right. reflexivity.
+    + unfold body in E. cbn [key_atom stringify_param repr_atom] in E. exfalso.
+      rewrite <- E in D. unfold repr_half in D. rewrite !forallb_app in D.
+      apply andb_true_iff in D as [_ D]. apply andb_true_iff in D as [_ D]. cbn in D. discriminate D.
+    + rewrite body_str in E by exact O. rewrite <- E in D. discriminate D.
+  - left. rewrite body_idx in E. apply p_of_Z_inj in E. apply Nat2Z.inj in E. subst j. reflexivity.
+Qed.
+
+(* with an include-path element on the right: equal, or the int key / index confusion *)
+Lemma body_qkey_inj k k' : ok_key k = true -> qkey k' = true -> body k = body k' ->
+  k = k' \/ exists i, k' = PIdx i /\ k = PKey (AInt (Z.of_nat i)).
+Proof.
+  intros O Q E. destruct k' as [a|i].
+  - left. apply body_inj; [exact O| |exact E]. destruct a; cbn in *; congruence.
+  - destruct (body_idx_inj k i O E) as [H|H]; subst k; [left; reflexivity|right; eauto].
+Qed.
+
+Lemma qkey_body_inj k k' : qkey k = true -> qkey k' = true -> body k = body k' -> k = k'.
+Proof.
+  intros Q Q' E. destruct (body_qkey_inj k k' (qkey_ok k Q) Q' E) as [H|(i & H1 & H2)]; [exact H|subst; discriminate Q].
+Qed.
+
+Lemma qkeys_body_inj a : forall b, forallb qkey a = true -> forallb qkey b = true ->
+  map body a = map body b -> a = b.
+Proof.
+  induction a as [|k a IH]; intros [|k' b] A B E; try discriminate; [reflexivity|].
+  cbn in A, B, E. apply andb_true_iff in A as [Ak A]. apply andb_true_iff in B as [Bk B].
+  inversion E as [[E1 E2]]. rewrite (qkey_body_inj k k' Ak Bk E1), (IH b A B E2). reflexivity.
+Qed.
+
 Lemma path_prefix_app q p : path_prefix q p = true <-> exists l, p = q ++ l.
 Proof.
   revert p; induction q as [|a q IH]; intros p; cbn.
@@ -298,17 +337,54 @@ Qed.
 
 (* ------------------------------------------------------------------ *)
 (* include_paths                                                       *)
+
+Lemma strict_prefixes_prefix a p : In a (strict_prefixes p) -> path_prefix a p = true.
+Proof.
+  revert a; induction p as [|k p IH]; intros a H; [destruct H|].
+  cbn in H. destruct H as [<-|H]; [reflexivity|].
+  apply in_map_iff in H as (b & <- & Hb). cbn. rewrite (proj2 (pkey_eqb_eq k k) eq_refl). apply IH. exact Hb.
+Qed.
+
+Lemma map_snoc_inv {A B} (f : A -> B) p k : forall q, map f (p ++ [k]) = map f q ->
+  exists q0 k', q = q0 ++ [k'] /\ map f p = map f q0 /\ f k = f k'.
+Proof.
+  induction p as [|a p IH]; intros q E.
+  - destruct q as [|k' [|? ?]]; try discriminate. cbn in E. inversion E. exists [], k'. auto.
+  - destruct q as [|b q]; [discriminate|]. cbn in E. inversion E as [[E1 E2]].
+    destruct (IH q E2) as (q0 & k' & -> & M & F). exists (b :: q0), k'. cbn. rewrite E1, M. auto.
+Qed.
+
+(* rendered paths of include-path shape are distinct for distinct key sequences *)
+Lemma qkeys_render_inj a b : forallb qkey a = true -> forallb qkey b = true -> render a = render b -> a = b.
+Proof.
+  intros A B E. rewrite !render_tail in E. apply app_inv_head in E.
+  assert (P1 : is_prefix (tail a) (tail b) = true) by (rewrite E; apply is_prefix_refl).
+  assert (P2 : is_prefix (tail b) (tail a) = true) by (rewrite E; apply is_prefix_refl).
+  destruct (tail_prefix_gen a b (forallb_qkey_ok a A) (forallb_qkey_ok b B) P1) as (x1 & x2 & -> & M1).
+  destruct (tail_prefix_gen _ a (forallb_qkey_ok _ B) (forallb_qkey_ok a A) P2) as (y1 & y2 & Ea & M2).
+  assert (L1 : List.length x1 = List.length a) by (rewrite <- (map_length body x1), M1, map_length; reflexivity).
+  assert (L2 : List.length y1 = List.length (x1 ++ x2)) by (rewrite <- (map_length body y1), M2, map_length; reflexivity).
+  assert (x2 = []).
+  { destruct x2 as [|e x2]; [reflexivity|]. exfalso. rewrite app_length in L2. cbn in L2.
+    assert (List.length a = List.length y1 + List.length y2) by (rewrite Ea at 1; apply app_length). lia. }
+  subst x2. rewrite app_nil_r in *. symmetry. apply qkeys_body_inj; assumption.
+Qed.
+
+(* ------------------------------------------------------------------ *)
+(* include_paths                                                       *)
 (* ------------------------------------------------------------------ *)
 Section Include.
 Variable Q : list path.
-Hypothesis HQ : Forall (fun q => forallb str_key q = true) Q.
+Hypothesis HQ : Forall (fun q => forallb qkey q = true) Q.
+(* when an include path goes through a list index, no str key of an include path is a digit string *)
+Hypothesis HD : Forall (fun q => forallb str_key q = true) Q \/ Forall (fun q => forallb nodigit_key q = true) Q.
 Let INC := map render Q.
 Notation sk := (skip_this no_skip [] INC).
 Notation kf := (skip_this_key INC).
 Notation Rq := (related Q).
 Notation okp := (forallb ok_key).
 
-Lemma Q_str q : In q Q -> forallb str_key q = true.
+Lemma Q_qkey q : In q Q -> forallb qkey q = true.
 Proof. rewrite Forall_forall in HQ. apply HQ. Qed.
 
 Lemma inc_in q : In q Q -> mem_str (render q) INC = true.
@@ -326,11 +402,6 @@ Proof.
   rewrite !related_iff. intros (q & Hq & [H|H]); exists q; (split; [exact Hq|]).
   - destruct (path_prefix_snoc_l _ _ _ H) as [H' | ->]; [left; exact H'|right; apply path_prefix_snoc_r].
   - right. eapply path_prefix_trans; [apply path_prefix_snoc_r|exact H].
-Qed.
-
-Lemma INC_cons : related Q [] = true -> exists s r, INC = s :: r.
-Proof.
-  unfold INC. destruct Q as [|q r]; [discriminate|]. intros _. cbn. eauto.
 Qed.
 
 Lemma related_nonempty p : Rq p = true -> exists s r, INC = s :: r.
@@ -365,10 +436,9 @@ Proof.
 Qed.
 
 (* a key on the way to, at, or below an include path passes the key filter *)
-Lemma inc_Hkey p a b : okp p = true -> ok_atom a = true -> ok_atom b = true -> Rq p = true ->
-  py_eq a b = true -> Rq (snoc p (PKey b)) = true -> kf p a = false.
+Lemma inc_Hkey p a b : Rq p = true -> py_eq a b = true -> Rq (snoc p (PKey b)) = true -> kf p a = false.
 Proof.
-  intros _ Oa Ob Hp E H. apply kf_false; [eapply related_nonempty; exact Hp|].
+  intros Hp E H. apply kf_false; [eapply related_nonempty; exact Hp|].
   apply related_iff in H as (q & Hq & H).
   assert (BELOW : path_prefix q p = true ->
      mem_str (render p) INC || existsb (fun x => mem_str (render x) INC) (strict_prefixes p) = true).
@@ -376,7 +446,7 @@ Proof.
     - rewrite (inc_in p Hq). reflexivity.
     - apply orb_true_iff. right. apply existsb_exists. exists q. split; [exact I|apply inc_in; exact Hq]. }
   assert (STR : forall l, q = snoc p (PKey b) ++ l -> key_fmt p a = render (snoc p (PKey b))).
-  { intros l Eq. pose proof (Q_str q Hq) as S. rewrite Eq in S. unfold snoc in S. rewrite !forallb_app in S.
+  { intros l Eq. pose proof (Q_qkey q Hq) as S. rewrite Eq in S. unfold snoc in S. rewrite !forallb_app in S.
     apply andb_true_iff in S as [S _]. apply andb_true_iff in S as [_ S]. cbn in S. rewrite andb_true_r in S.
     destruct b as [| | | |s|]; try discriminate. apply py_eq_str in E. subst a. apply key_fmt_str. exact S. }
   destruct H as [H|H].
@@ -390,31 +460,179 @@ Proof.
     rewrite X. rewrite ?orb_true_r. reflexivity.
 Qed.
 
-(* a level that is not related to any include path is skipped on entry *)
-Lemma inc_drop x : okp x = true -> Rq x = false -> (exists s r, INC = s :: r) -> sk x = true.
+(* a kept level whose child is not kept lies strictly above an include path *)
+Lemma unrelated_child p k : Rq p = true -> Rq (snoc p k) = false ->
+  forallb qkey p = true /\ (forall q, In q Q -> path_prefix q p = false).
 Proof.
-  intros O H (s & r & E). unfold skip_this. rewrite E. rewrite <- E.
-  assert (NR : forall q, In q Q -> path_prefix q x = false /\ path_prefix x q = false).
-  { intros q Hq. unfold related in H.
-    assert (F : (path_prefix q x || path_prefix x q) = false).
-    { destruct (path_prefix q x || path_prefix x q) eqn:F; [|reflexivity].
-      assert (existsb (fun q => path_prefix q x || path_prefix x q) Q = true) by (apply existsb_exists; exists q; split; assumption).
-      congruence. }
-    apply orb_false_iff in F. exact F. }
-  destruct x as [|k x].
-  { (* the root is related to everything *)
-    destruct Q as [|q0 r0]; [discriminate E|]. destruct (NR q0 (or_introl eq_refl)) as [_ F]. discriminate F. }
-  cbn [is_root negb].
+  intros H E.
+  assert (N : forall q, In q Q -> path_prefix q p = false).
+  { intros q Hq. destruct (path_prefix q p) eqn:P; [|reflexivity].
+    assert (Rq (snoc p k) = true); [|congruence].
+    apply related_iff. exists q. split; [exact Hq|left]. eapply path_prefix_trans; [exact P|apply path_prefix_snoc_r]. }
+  split; [|exact N]. apply related_iff in H as (q & Hq & [A|B]); [rewrite (N q Hq) in A; discriminate A|].
+  apply path_prefix_app in B as [l ->]. pose proof (Q_qkey _ Hq) as S. rewrite forallb_app in S.
+  apply andb_true_iff in S as [S _]. exact S.
+Qed.
+
+(* the three string tests of _skip_this between a level and one include string *)
+Definition srel (x q : path) : bool :=
+  pystr_eqb (render x) (render q) || contains_sub (render q) (render x) || contains_sub (render x) (render q).
+
+Lemma string_rel x q : okp x = true -> x <> [] -> In q Q -> srel x q = true ->
+  (exists x1 x2, x = x1 ++ x2 /\ map body x1 = map body q) \/
+  (exists q1 q2, q = q1 ++ q2 /\ map body q1 = map body x).
+Proof.
+  intros O NE Hq H. pose proof (forallb_qkey_ok q (Q_qkey q Hq)) as Oq.
+  assert (C : contains_sub (render q) (render x) = true \/ contains_sub (render x) (render q) = true).
+  { unfold srel in H. apply orb_true_iff in H as [H|H]; [|right; exact H].
+    apply orb_true_iff in H as [H|H]; [|left; exact H].
+    apply pystr_eqb_eq in H. left. rewrite H. apply is_prefix_sub, is_prefix_refl. }
+  destruct C as [C|C].
+  - left. destruct q as [|kq q]; [exists [], x; split; reflexivity|].
+    apply sub_is_prefix in C; [|discriminate|exact O].
+    rewrite !render_tail, is_prefix_app_same in C. apply tail_prefix_gen; assumption.
+  - right. apply sub_is_prefix in C; [|exact NE|exact Oq].
+    rewrite !render_tail, is_prefix_app_same in C. apply tail_prefix_gen; assumption.
+Qed.
+
+Lemma child_rel p k q : forallb qkey p = true -> ok_key k = true ->
+  (forall q', In q' Q -> path_prefix q' p = false) -> In q Q -> srel (snoc p k) q = true ->
+  exists k', qkey k' = true /\ body k = body k' /\ path_prefix (snoc p k') q = true.
+Proof.
+  intros Qp Ok N Hq H. pose proof (Q_qkey q Hq) as Sq.
+  assert (O : okp (snoc p k) = true).
+  { unfold snoc. rewrite forallb_app, (forallb_qkey_ok p Qp). cbn. rewrite Ok. reflexivity. }
+  assert (NE : snoc p k <> []) by (unfold snoc; destruct p; discriminate).
+  destruct (string_rel _ q O NE Hq H) as [(x1 & x2 & E & M)|(q1 & q2 & E & M)].
+  - destruct x2 as [|e x2 _] using rev_ind.
+    + rewrite app_nil_r in E. subst x1. unfold snoc in M. destruct (map_snoc_inv body p k q M) as (q0 & k' & -> & M0 & Bk).
+      rewrite forallb_app in Sq. apply andb_true_iff in Sq as [S0 Sk]. cbn in Sk. rewrite andb_true_r in Sk.
+      pose proof (qkeys_body_inj p q0 Qp S0 M0). subst q0. exists k'. repeat split; try assumption. apply path_prefix_refl.
+    + exfalso. unfold snoc in E. rewrite app_assoc in E. apply app_inj_tail in E as [E _]. subst p.
+      rewrite forallb_app in Qp. apply andb_true_iff in Qp as [Q1 _].
+      pose proof (qkeys_body_inj x1 q Q1 Sq M). subst x1.
+      pose proof (N q Hq) as F. rewrite (proj2 (path_prefix_app q (q ++ x2))) in F by (exists x2; reflexivity). discriminate F.
+  - unfold snoc in M. symmetry in M. destruct (map_snoc_inv body p k q1 M) as (q0 & k' & -> & M0 & Bk).
+    subst q. rewrite !forallb_app in Sq. apply andb_true_iff in Sq as [Sq _]. apply andb_true_iff in Sq as [S0 Sk].
+    cbn in Sk. rewrite andb_true_r in Sk.
+    pose proof (qkeys_body_inj p q0 Qp S0 M0). subst q0. exists k'. repeat split; try assumption.
+    apply path_prefix_app. exists q2. reflexivity.
+Qed.
+
+Lemma srel_none_skip x : x <> [] -> (exists s r, INC = s :: r) ->
+  (forall q, In q Q -> srel x q = false) -> sk x = true.
+Proof.
+  intros NE (s & r & E) H. unfold skip_this. rewrite E. rewrite <- E.
+  destruct x as [|k x]; [congruence|]. cbn [is_root negb].
   assert (M : mem_str (render (k :: x)) INC = false).
   { destruct (mem_str (render (k :: x)) INC) eqn:M; [|reflexivity]. apply mem_str_in in M. unfold INC in M.
-    apply in_map_iff in M as (q & Eq & Hq). destruct (NR q Hq) as [F _].
-    rewrite (sub_prefix_q q (k :: x) (Q_str q Hq) O) in F; [discriminate F|]. rewrite Eq. apply is_prefix_sub, is_prefix_refl. }
+    apply in_map_iff in M as (q & Eq & Hq). pose proof (H q Hq) as F. unfold srel in F.
+    rewrite Eq, pystr_eqb_refl in F. discriminate F. }
   rewrite M. cbn [negb]. apply negb_true_iff.
   destruct (existsb _ INC) eqn:X; [|reflexivity]. apply existsb_exists in X as (t & Ht & X). unfold INC in Ht.
-  apply in_map_iff in Ht as (q & <- & Hq). destruct (NR q Hq) as [F1 F2].
-  apply orb_true_iff in X as [X|X].
-  - rewrite (sub_prefix_q q _ (Q_str q Hq) O X) in F1. discriminate F1.
-  - rewrite (sub_prefix_x q _ (Q_str q Hq) O X) in F2. discriminate F2.
+  apply in_map_iff in Ht as (q & <- & Hq). pose proof (H q Hq) as F. unfold srel in F.
+  apply orb_false_iff in F as [F F2]. apply orb_false_iff in F as [_ F1]. rewrite F1, F2 in X. discriminate X.
+Qed.
+
+(* a child that is not kept is skipped on entry, except for the int key that prints like an index of an include path *)
+Lemma drop_unless_confusion p k : Rq p = true -> Rq (snoc p k) = false -> ok_key k = true ->
+  sk (snoc p k) = true \/
+  exists i q, k = PKey (AInt (Z.of_nat i)) /\ In q Q /\ path_prefix (snoc p (PIdx i)) q = true.
+Proof.
+  intros H E Ok. destruct (unrelated_child p k H E) as [Qp N].
+  destruct (existsb (fun q => srel (snoc p k) q) Q) eqn:X.
+  - apply existsb_exists in X as (q & Hq & S).
+    destruct (child_rel p k q Qp Ok N Hq S) as (k' & Qk' & B & P).
+    destruct (body_qkey_inj k k' Ok Qk' B) as [->|(i & -> & ->)].
+    + exfalso. assert (Rq (snoc p k') = true); [|congruence]. apply related_iff. exists q. split; [exact Hq|right; exact P].
+    + right. exists i, q. auto.
+  - left. apply srel_none_skip; [unfold snoc; destruct p; discriminate|eapply related_nonempty; exact H|].
+    intros q Hq. destruct (srel (snoc p k) q) eqn:S; [|reflexivity].
+    assert (existsb (fun q => srel (snoc p k) q) Q = true) by (apply existsb_exists; exists q; split; assumption). congruence.
+Qed.
+
+Lemma digits_plain s : forallb is_digit s = true -> plain_str s = true.
+Proof.
+  intros H. unfold plain_str. eapply forallb_impl; [|exact H]. intros c Hc.
+  unfold is_digit in Hc. apply andb_true_iff in Hc as [A B]. apply N.leb_le in A, B.
+  unfold plain_ch, cLB, cRB, cSQ, cDQ. apply negb_true_iff.
+  repeat (apply orb_false_iff; split); apply N.eqb_neq; lia.
+Qed.
+
+(* ... and that int key is dropped by the key filter *)
+Lemma confusion_kf p i q : Rq p = true -> Rq (snoc p (PKey (AInt (Z.of_nat i)))) = false ->
+  In q Q -> path_prefix (snoc p (PIdx i)) q = true -> kf p (AInt (Z.of_nat i)) = true.
+Proof.
+  intros H E Hq P. destruct (unrelated_child _ _ H E) as [Qp N].
+  set (s := p_of_Z (Z.of_nat i)). destruct (p_of_nat_digits i) as [Ds NEs]. fold s in Ds, NEs.
+  assert (Ps : plain_str s = true) by (apply digits_plain; exact Ds).
+  assert (AD : all_digits s = true) by (unfold all_digits; destruct s; [congruence|exact Ds]).
+  (* no include path carries the str key s *)
+  assert (ND : forall q', In q' Q -> forallb nodigit_key q' = true).
+  { destruct HD as [HS|HN]; [|rewrite Forall_forall in HN; exact HN]. exfalso.
+    rewrite Forall_forall in HS. pose proof (HS q Hq) as S. apply path_prefix_app in P as [l ->].
+    unfold snoc in S. rewrite !forallb_app in S. apply andb_true_iff in S as [S _]. apply andb_true_iff in S as [_ S].
+    discriminate S. }
+  assert (KF : key_fmt p (AInt (Z.of_nat i)) = render (snoc p (PKey (AStr s)))).
+  { change (key_fmt p (AInt (Z.of_nat i))) with (key_fmt p (AStr s)). apply key_fmt_str. exact Ps. }
+  assert (NS : forall q', In q' Q -> srel (snoc p (PKey (AStr s))) q' = false).
+  { intros q' Hq'. destruct (srel (snoc p (PKey (AStr s))) q') eqn:S; [|reflexivity]. exfalso.
+    destruct (child_rel p (PKey (AStr s)) q' Qp Ps N Hq' S) as (k' & Qk' & B & P').
+    destruct (body_qkey_inj (PKey (AStr s)) k' Ps Qk' B) as [<-|(j & _ & F)]; [|discriminate F].
+    pose proof (ND q' Hq') as D. apply path_prefix_app in P' as [l ->]. unfold snoc in D.
+    rewrite !forallb_app in D. apply andb_true_iff in D as [D _]. apply andb_true_iff in D as [_ D].
+    cbn in D. rewrite AD in D. discriminate D. }
+  destruct (related_nonempty p H) as (s0 & r0 & EI). unfold skip_this_key. rewrite EI. rewrite <- EI. rewrite KF.
+  assert (R1 : mem_str (render (snoc p (PKey (AStr s)))) INC = false).
+  { destruct (mem_str _ INC) eqn:M; [|reflexivity]. apply mem_str_in in M. unfold INC in M.
+    apply in_map_iff in M as (q' & Eq & Hq'). pose proof (NS q' Hq') as F. unfold srel in F.
+    rewrite Eq, pystr_eqb_refl in F. discriminate F. }
+  assert (REQ : forall a, path_prefix a p = true -> mem_str (render a) INC = false).
+  { intros a Pa. destruct (mem_str (render a) INC) eqn:M; [|reflexivity]. apply mem_str_in in M. unfold INC in M.
+    apply in_map_iff in M as (q' & Eq & Hq'). exfalso.
+    assert (Qa : forallb qkey a = true).
+    { apply path_prefix_app in Pa as [l El]. rewrite El in Qp. rewrite forallb_app in Qp. apply andb_true_iff in Qp as [A _]. exact A. }
+    pose proof (qkeys_render_inj q' a (Q_qkey q' Hq') Qa Eq). subst q'.
+    rewrite (N a Hq') in Pa. discriminate Pa. }
+  rewrite R1, (REQ p (path_prefix_refl p)).
+  assert (R3 : existsb (fun pre => contains_sub (render (snoc p (PKey (AStr s)))) pre) INC = false).
+  { destruct (existsb _ INC) eqn:X; [|reflexivity]. apply existsb_exists in X as (t & Ht & X). unfold INC in Ht.
+    apply in_map_iff in Ht as (q' & <- & Hq'). pose proof (NS q' Hq') as F. unfold srel in F.
+    apply orb_false_iff in F as [_ F]. rewrite F in X. discriminate X. }
+  rewrite R3.
+  assert (R4 : existsb (fun x => mem_str (render x) INC) (strict_prefixes p) = false).
+  { destruct (existsb _ (strict_prefixes p)) eqn:X; [|reflexivity]. apply existsb_exists in X as (a & Ha & X).
+    rewrite (REQ a (strict_prefixes_prefix a p Ha)) in X. discriminate X. }
+  rewrite R4. reflexivity.
+Qed.
+
+Lemma inc_Hdropk p a : Rq p = true -> ok_atom a = true -> Rq (snoc p (PKey a)) = false ->
+  kf p a = true \/ sk (snoc p (PKey a)) = true.
+Proof.
+  intros H Oa E. destruct (drop_unless_confusion p (PKey a) H E Oa) as [S|(i & q & Ek & Hq & P)]; [right; exact S|].
+  left. inversion Ek. subst a. eapply confusion_kf; eassumption.
+Qed.
+
+Lemma inc_Hdropi p i : Rq p = true -> Rq (snoc p (PIdx i)) = false -> sk (snoc p (PIdx i)) = true.
+Proof.
+  intros H E. destruct (drop_unless_confusion p (PIdx i) H E eq_refl) as [S|(j & q & Ek & _)]; [exact S|discriminate Ek].
+Qed.
+
+(* include paths made of dictionary keys only: at a kept level the index children are kept or dropped together *)
+Lemma inc_dich : Forall (fun q => forallb str_key q = true) Q -> forall p, Rq p = true ->
+  (forall i, Rq (snoc p (PIdx i)) = true) \/ (forall i, Rq (snoc p (PIdx i)) = false).
+Proof.
+  intros HS p H. rewrite Forall_forall in HS.
+  destruct (existsb (fun q => path_prefix q p) Q) eqn:X.
+  - left. intros i. apply existsb_exists in X as (q & Hq & P). apply related_iff. exists q. split; [exact Hq|left].
+    eapply path_prefix_trans; [exact P|apply path_prefix_snoc_r].
+  - right. intros i. destruct (Rq (snoc p (PIdx i))) eqn:E; [|reflexivity]. exfalso.
+    apply related_iff in E as (q & Hq & [A|B]).
+    + destruct (path_prefix_snoc_l _ _ _ A) as [A' | ->].
+      * assert (existsb (fun q => path_prefix q p) Q = true) by (apply existsb_exists; exists q; split; assumption). congruence.
+      * pose proof (HS _ Hq) as S. unfold snoc in S. rewrite forallb_app in S. apply andb_true_iff in S as [_ S]. discriminate S.
+    + apply path_prefix_app in B as [l ->]. pose proof (HS _ Hq) as S. unfold snoc in S. rewrite !forallb_app in S.
+      apply andb_true_iff in S as [S _]. apply andb_true_iff in S as [_ S]. discriminate S.
 Qed.
 End Include.
 
@@ -427,14 +645,18 @@ Qed.
 Lemma related_root Q : Q <> [] -> related Q [] = true.
 Proof. destruct Q as [|q Q]; [congruence|]. intros _. cbn. destruct q; reflexivity. Qed.
 
+(* include paths: list indexes and plain string keys; positional mode, or the default alignment mode when
+   the include paths consist of dictionary keys only *)
 Theorem include_filter hatom udiff ops c Q t1 t2 :
-  Q <> [] -> Forall (fun q => forallb str_key q = true) Q ->
-  zip c = true -> thr_num c = 0 -> wf t2 = true ->
+  Q <> [] -> Forall (fun q => forallb qkey q = true) Q ->
+  Forall (fun q => forallb str_key q = true) Q \/ Forall (fun q => forallb nodigit_key q = true) Q ->
+  zip c = true \/ Forall (fun q => forallb str_key q = true) Q ->
+  thr_num c = 0 -> wf t2 = true ->
   keys_all ok_atom t1 = true -> keys_all ok_atom t2 = true ->
   fst (run_filtered hatom udiff ops no_skip [] (map render Q) c t1 t2) =
   filter (fun e => related Q (ep1 e)) (fst (run_diff hatom udiff ops no_skip no_skip c t1 t2)).
 Proof.
-  intros NQ HQ Z T W O1 O2. unfold run_filtered. rewrite add_root_render. change (add_root_to_paths []) with (@nil pystr).
+  intros NQ HQ HD M T W O1 O2. unfold run_filtered. rewrite add_root_render. change (add_root_to_paths []) with (@nil pystr).
   rewrite <- run_diffx_no_kf.
   apply (run_general hatom udiff ops c (skip_this no_skip [] (map render Q)) (skip_this_key (map render Q))
            (excl_this []) no_skip (related Q) (forallb ok_key) ok_atom); try assumption; try reflexivity.
@@ -442,22 +664,20 @@ Proof.
   - intros p i Hp. unfold snoc. rewrite forallb_app, Hp. reflexivity.
   - intros p _ H. apply inc_H1; assumption.
   - intros p k Hk. eapply related_up; eassumption.
-  - intros p a b Hp Ha Hb H E Hr. eapply (inc_Hkey Q HQ p a b); assumption.
-  - intros p a Hp Ha H E. right. apply (inc_drop Q HQ); [ |exact E|eapply related_nonempty; eassumption].
-    unfold snoc. rewrite forallb_app, Hp. cbn. rewrite Ha. reflexivity.
-  - intros p i Hp H E. apply (inc_drop Q HQ); [ |exact E|eapply related_nonempty; eassumption].
-    unfold snoc. rewrite forallb_app, Hp. reflexivity.
-  - left. exact Z.
+  - intros p a b Hp Ha Hb H E Hr. eapply inc_Hkey; eassumption.
+  - intros p a Hp Ha H E. eapply inc_Hdropk; eassumption.
+  - intros p i Hp H E. eapply inc_Hdropi; eassumption.
+  - destruct M as [Z|S]; [left; exact Z|right]. intros p Hp. eapply inc_dich; eassumption.
   - left. exact T.
   - intros k1 k2 p. rewrite !shortcut_thr0 by exact T. reflexivity.
   - apply related_root. exact NQ.
 Qed.
 
-(* the guard is satisfiable by a non-trivial input *)
+(* the guards are satisfiable by non-trivial inputs *)
 Local Open Scope string_scope.
 Example include_guard_example :
-  let q := [PKey (AStr (s2p "a")); PKey (AStr (s2p "b c"))] in
-  let t := VDict [(AStr (s2p "a"), VDict [(AStr (s2p "b c"), VList [VAtom (AInt 1)]); (AInt 3, VAtom ANone)]);
-                  (AHalf 3, VAtom (AInt 2))] in
-  forallb str_key q = true /\ keys_all ok_atom t = true /\ wf t = true.
+  let q := [PKey (AStr (s2p "a")); PIdx 1; PKey (AStr (s2p "b c"))] in
+  let t := VDict [(AStr (s2p "a"), VList [VAtom ANone; VDict [(AStr (s2p "b c"), VList [VAtom (AInt 1)]); (AInt 3, VAtom ANone)]]);
+                  (AHalf 3, VAtom (AInt 2)); (AInt 1, VAtom ANone)] in
+  forallb qkey q = true /\ forallb nodigit_key q = true /\ keys_all ok_atom t = true /\ wf t = true.
 Proof. vm_compute. auto. Qed.
